@@ -141,7 +141,36 @@ class TermModel:
 def rule_loop(tm, bodies):
     obs = []
     n = 0
-    for b in bodies:
+    for b0 in bodies:
+        first, n0 = _loop_body(tm, b0)
+        n += n0
+        if any(o.status == 'violated' for o in first):
+            # second reading: helpers of this body inlined (a helper that reports whether it consumed a token,
+            # `if !self.take_x()? { return .. }`, is only readable together with its caller)
+            tried = []
+            if any(p.id == b0.id for p in tm.roles.parse_bodies):
+                for tag in ('shallow', 'deep'):
+                    vr = tm.roles.views(tag)
+                    tried += [v for v, p in zip(vr.parse_bodies, tm.roles.parse_bodies) if p.id == b0.id and v is not p]
+            else:
+                v = tm.prog.view(b0)
+                if v is not b0:
+                    tried.append(v)
+            for v in tried:
+                second, _ = _loop_body(tm, v)
+                if not any(o.status == 'violated' for o in second):
+                    for o in second:
+                        o.what += ' [read with helpers inlined]'
+                    first = second
+                    break
+        obs += first
+    return obs, n
+
+
+def _loop_body(tm, b):
+    obs = []
+    n = 0
+    if True:
         for k, scc in enumerate(sorted(b.sccs(), key=lambda s: min(s))):
             n += 1
             key = 'LOOP|%s|#%d' % (b.name, k)
